@@ -14,12 +14,16 @@
     every parser state with that block innermost: the end callback is for exactly that block
     (same state id, parent = the enclosing block), exactly that block is popped, the visitor
     in force before the block is restored, nothing else changes.
+  * `C04_toplevel_block_end`: the same through one iteration of the parse loop (regenerated
+    dispatch table): `}` with a namespace / extern block innermost ends and pops exactly it.
 -/
 import CxxModel.Theorems.Fault
 import CxxModel.Theorems.Nest
 import CxxModel.Parser.Decl
 import CxxModel.Theorems.FoldCount
 import CxxModel.Theorems.BlockEnd
+import CxxModel.Theorems.TopLevel
+import CxxModel.GenCfg
 namespace Cxx
 
 /-- the world after `on_parse_start` satisfies the nesting invariant -/
@@ -132,5 +136,21 @@ theorem C04_block_end (env : Env) (F : Nat) (c : P.Core) (w : World) (blk : Bloc
       | (w1, some e) => (w1, .error e)
       | (w1, none) => ({ w1 with muted := blk.priorMuted, stack := rest }, .ok ()) :=
   block_end_nonclass env F c w blk rest hstack hg hk
+
+section
+open P
+
+theorem C04_toplevel_block_end (env : Env) (hc : env.cfg = genLexCfg) (F : Nat) (c : Core) (w : World) (t : Tok) (b1 : Buf)
+    (blk : Block) (rest : List Block) (hstack : w.stack = blk :: rest) (hg : blk.isGlobal = false) (hk : blk.hdr.kind ≠ .cls)
+    (ht : tokenEofOk env.cfg w.buf = .ok (some t, b1)) (hty : t.type = "}") :
+    ∃ (wA : World) (ct : CTok), SameParse w wA ∧ wA.buf = b1 ∧ ct.value = t.value ∧
+      interp env (mainBody F c none) w =
+        match deliver env { wA with mainTok := some ct }
+            (mkEvent { wA with mainTok := some ct } .blockEnd blk (rest.head?.map (·.id))) with
+        | (w1, some e) => (w1, .error e)
+        | (w1, none) => ({ w1 with muted := blk.priorMuted, stack := rest }, .ok (.inl none)) :=
+  toplevel_block_end env (by rw [hc]; exact gen_rules_progress) F c w t b1 blk rest hstack hg hk ht hty
+
+end
 
 end Cxx
